@@ -83,7 +83,10 @@ func (t *AppendOnlyTree) AddLeaf(tx dbtypes.Txer, blockNum, blockPosition uint64
 	t.lastIndex++
 	tx.AddRollbackCallback(func() {
 		log.Debugf("decreasing index due to rollback")
-		t.lastIndex--
+		// lastLeftCache may already hold hashes of leaves added by the rolled-back transaction
+		// (this leaf or later ones), so a plain decrement would leave a stale frontier behind:
+		// mark the cache as not initialised, the next AddLeaf rebuilds it from the DB
+		t.lastIndex = -2
 	})
 	return nil
 }
